@@ -275,7 +275,10 @@ theorem stitchDown_safe (b : Nat) (last : Option Str) : Safe AllUsable (stitchDo
       split
       · exact .ret hx
       · exact Safe.bind (ih _) (fun more hm => .ret (hx.append hm))
-    · exact ih _
+    · refine Safe.bind' (unwrapOr_safe _ (isFile_safe _)) (fun r => ?_)
+      split
+      · exact .emit _ (ih _)
+      · exact ih _
 
 /-- Every entry the stitched reader yields passed `IndexEntry::check`. -/
 theorem stitchAll_safe (b : Nat) : Safe AllUsable (stitchAll b) := by
